@@ -132,7 +132,7 @@ fn c05(c: &mut Check) {
 
 fn c06(c: &mut Check) {
     let n = c.tier.pick(1400, 60000);
-    run_e1(c, "weak-and-finalizers", n, "C06", &[], || gen::case(&COLLECTING_PLANS, Mix { weak: true, finalizers: true, gc_weight: 10, ..Mix::BASIC }, "C06", 120), |v| {
+    run_e1(c, "weak-and-finalizers", n, "C06", &[], || gen::case(&COLLECTING_PLANS, Mix { weak: true, finalizers: true, weak_pairs: 16, fin_objs: 8, gc_weight: 12, churn_weight: 1, ..Mix::BASIC }, "C06", 120), |v| {
         let nt = (cv(v, "ref_cleared") > 0 && cv(v, "ref_retained") > 0) || cv(v, "finalized_popped") > 0;
         let mut l = labels_common(v);
         if cv(v, "ref_cleared") > 0 {
@@ -202,7 +202,7 @@ fn c13(c: &mut Check) {
 
 fn c16(c: &mut Check) {
     let n = c.tier.pick(500, 20000);
-    run_e1(c, "fork-cycles", n, "C16", &["C01"], || gen::case(&COLLECTING_PLANS, Mix { fork: true, gc_weight: 10, churn_weight: 1, big: false, ..Mix::BASIC }, "C16", 60), |v| {
+    run_e1(c, "fork-cycles", n, "C16", &["C01"], || gen::case(&COLLECTING_PLANS, Mix { fork: 9, gc_weight: 10, churn_weight: 1, big: false, ..Mix::BASIC }, "C16", 60), |v| {
         (cv(v, "fork_cycle") >= 2 && cv(v, "gc") >= 2, labels_common(v))
     });
 }
